@@ -161,6 +161,15 @@ class Subst(ast.NodeTransformer):
                 return clone(self.env[k])
         return self.generic_visit(n)
 
+    def visit_Subscript(self, n):
+        n = self.generic_visit(n)
+        # canonical form of a named group read: m.groupdict()[name] is m.group(name)
+        if isinstance(n.ctx, ast.Load) and isinstance(n.value, ast.Call) and isinstance(n.value.func, ast.Attribute) and n.value.func.attr == 'groupdict' \
+                and not n.value.args and not n.value.keywords and isinstance(n.slice, ast.Constant) and isinstance(n.slice.value, str):
+            r = ast.Call(func=ast.Attribute(value=n.value.func.value, attr='group', ctx=ast.Load()), args=[n.slice], keywords=[])
+            return ast.fix_missing_locations(ast.copy_location(r, n))
+        return n
+
     def visit_Lambda(self, n):
         shadow = {a.arg for a in n.args.args}
         inner = Subst({k: v for k, v in self.env.items() if k not in shadow})
